@@ -143,7 +143,7 @@ func H_C08_depth3() {
 // same options (variables, constants, SETVAR effects), applied to every inner
 // array: inner evaluation loses no part of the caller's context.
 func H_C08_options() {
-	form := verif.Choose("form", 4)
+	form := verif.Choose("form", 6)
 	shape := verif.Choose("shape", 3)
 	shapes := [][]int{{2, 0, 1}, {1, 1}, {0, 2}}
 	var outer []any
@@ -175,19 +175,25 @@ func H_C08_options() {
 		cur := varsA
 		mk = func() []QueryOption { v := cur; cur = varsB; return []QueryOption{WithVars(v)} }
 		defer func() { verif.Assert(verif.Eq(varsA, varsB), "same-variable-effects") }()
+	case 4:
+		// backward navigation to the document from rows of inner arrays
+		sql = "SELECT a FROM n WHERE a > `<-lo`"
+	case 5:
+		sql = "SELECT a FROM n WHERE a IN (SELECT v FROM `<-ref`)"
 	case 3:
 		sql = "SELECT `a` AS \"v\" FROM n WHERE a > CONSTANT('lo')"
 		mk = func() []QueryOption {
 			return []QueryOption{PostgresEscapingDialect(), WithConstants(map[string]any{"lo": lo})}
 		}
 	}
-	got, ok := runQuery(Map{"n": outer}, sql, mk()...)
+	ref := []any{Map{"v": lo}, Map{"v": float64(3)}}
+	got, ok := runQuery(Map{"n": outer, "lo": lo, "ref": ref}, sql, mk()...)
 	if !ok {
 		return
 	}
 	want := make([]any, 0, len(inner))
 	for _, arr := range inner {
-		part, ok := runQuery(Map{"n": arr}, sql, mk()...)
+		part, ok := runQuery(Map{"n": arr, "lo": lo, "ref": ref}, sql, mk()...)
 		if !ok {
 			return
 		}
@@ -209,11 +215,21 @@ func H_C08_options() {
 				first = append(first, Map{"a": a})
 			case 3:
 				first = append(first, Map{"v": a})
+			case 4:
+				first = append(first, Map{"a": a})
 			}
 		}
 	}
 	if first == nil {
 		first = []any{}
+	}
+	if form == 5 {
+		first = []any{}
+		for _, r := range inner[0] {
+			if a := f64of(r.(Map)["a"]); a == lo || a == 3 {
+				first = append(first, Map{"a": a})
+			}
+		}
 	}
 	verif.Assert(len(got) > 0 && verif.Eq(got[0], first), "first-inner-array")
 	verif.Reach("end")
